@@ -31,10 +31,18 @@ def propagateWindow (fs : List (Fld K)) (αr αc : R) (M N U0 V0 : Int) : Arr K 
     get := fun u v => sumList fs fun f =>
       (dft2 f.arr αr αc M N (-(RealLike.ofInt (U0 + M / 2))) (-(RealLike.ofInt (V0 + N / 2))) f.o0 f.o1 true).get u v }
 
+/-- as `propagateWindow`, each field carrying a real tilt shift `(sr, sc)` in output samples (`Field.shift`): its transform is
+evaluated at coordinate `(U − sr, V − sc)` (integer and sub-pixel part of the shift both enter through `dft2`'s `shift`) -/
+def propagateWindowTilted (ts : List (Fld K × R × R)) (αr αc : R) (M N U0 V0 : Int) : Arr K :=
+  { s0 := M, s1 := N,
+    get := fun u v => sumList ts fun t =>
+      (dft2 t.1.arr αr αc M N (-(RealLike.ofInt (U0 + M / 2)) + t.2.1) (-(RealLike.ofInt (V0 + N / 2)) + t.2.2)
+        t.1.o0 t.1.o1 true).get u v }
+
 /-- `np.fft.ifftshift(x)[i] = x[(i + ⌊n/2⌋) mod n]` (documented index map; contract) -/
-def ifftshiftIdx (n i : Int) : Int := (i + n / 2) % n
+def ifftshiftIdxE (n i : Int) : Int := (i + n / 2) % n
 /-- `np.fft.fftshift(x)[i] = x[(i - ⌊n/2⌋) mod n]` (documented index map; contract) -/
-def fftshiftIdx (n i : Int) : Int := (i + (n - n / 2)) % n
+def fftshiftIdxE (n i : Int) : Int := (i + (n - n / 2)) % n
 
 /-- `np.fft.fft2(x, norm='ortho')` (contract): the unitary DFT with both origins at index 0, i.e. `dft2` with
 `α = 1/n`, offset `⌊n/2⌋` and shift `-⌊n/2⌋` cancelling the centring of the coordinates -/
@@ -44,9 +52,9 @@ def fft2ortho (x : Arr K) : Arr K :=
 
 /-- `propagate._fft2(x) = fftshift(fft2(ifftshift(x), norm='ortho'))` -/
 def fftPath (x : Arr K) : Arr K :=
-  let xs : Arr K := { x with get := fun i j => x.get (ifftshiftIdx x.s0 i) (ifftshiftIdx x.s1 j) }
+  let xs : Arr K := { x with get := fun i j => x.get (ifftshiftIdxE x.s0 i) (ifftshiftIdxE x.s1 j) }
   let X := fft2ortho (R := R) xs
-  { X with get := fun k l => X.get (fftshiftIdx x.s0 k) (fftshiftIdx x.s1 l) }
+  { X with get := fun k l => X.get (fftshiftIdxE x.s0 k) (fftshiftIdxE x.s1 l) }
 
 /-- the sum of the fields' embeddings on an `S0 × S1` array with the origin at index `⌊S/2⌋`
 (`lentil.pad(wavefront.field, fft_shape)`) -/
